@@ -77,6 +77,12 @@ class ModelServer:
 
     # --- Server trait
     def srv_add_version(self, I, parent, payload):
+        # a version whose JSON text was assembled by hand is parsed here (documented JSON grammar)
+        p0 = deref(payload)
+        if isinstance(p0, Bytes) and type(p0.payload).__name__ == 'JsonText':
+            payload = Bytes('json', p0.payload.parse())
+        elif isinstance(p0, PyVec) and len(p0.items) == 1 and isinstance(p0.items[0], Bytes) and type(p0.items[0].payload).__name__ == 'JsonText':
+            payload = PyVec([Bytes('json', p0.items[0].payload.parse())])
         self.requests.append(('add_version', parent, payload))
         I.ctx.cover('server:add_version')
         if self.chain:
